@@ -36,6 +36,9 @@ use std::ops::Deref;
 use std::path::Path;
 use std::path::PathBuf;
 use std::sync::Arc;
+#[cfg(wild_verif)]
+use simrt::sync::Mutex;
+#[cfg(not(wild_verif))]
 use std::sync::Mutex;
 use std::sync::atomic::AtomicUsize;
 use std::sync::atomic::Ordering;
